@@ -20,6 +20,8 @@ import (
 	"reflect"
 	"sort"
 	"strings"
+	"sync"
+	"sync/atomic"
 	"time"
 
 	"github.com/cenkalti/backoff/v4"
@@ -81,7 +83,15 @@ func c16Schema() *tspace.Schema {
 	return &tspace.Schema{Name: "VDB", Tables: []*tspace.Table{mk("T0"), mk("T1"), mk("T2"), mk("Marker")}}
 }
 
+// c16Window, when set, is called by the client hook at every
+// client.monitor.reply point (monitor reply received, contents not yet applied).
+var (
+	c16WinMu  sync.Mutex
+	c16Window func()
+)
+
 type c16result struct {
+	windows   int // transactions committed inside a monitor window
 	c2s, s2c  int // message counts on the first connection (fault-free run)
 	findings  []finding
 	connected bool
@@ -89,8 +99,7 @@ type c16result struct {
 }
 
 // c16Session runs one session with one fault script.
-func c16Session(r *ev.Run, m *dyn.Model, shape c16shape, f c16fault, batch, idx int) c16result {
-	var res c16result
+func c16Session(r *ev.Run, m *dyn.Model, shape c16shape, f c16fault, batch, idx int) (res c16result) {
 	dir := wireScratch()
 	s := m.S
 	srv, err := peer.StartServer(m, dir, fmt.Sprintf("c16s-%d-%d", batch, idx))
@@ -113,7 +122,7 @@ func c16Session(r *ev.Run, m *dyn.Model, shape c16shape, f c16fault, batch, idx 
 	p := prng.Derive(int64(shape.seed), "C16session")
 	// faults
 	switch f.kind {
-	case "cut-after":
+	case "cut-after", "cut-after+window":
 		px.AddFault(&proxy.Fault{Dir: f.dir, AfterMsg: f.k, ConnIndex: 0})
 	case "cut-inside":
 		px.AddFault(&proxy.Fault{Dir: f.dir, AfterMsg: f.k, Inside: true, ConnIndex: 0})
@@ -144,6 +153,31 @@ func c16Session(r *ev.Run, m *dyn.Model, shape c16shape, f c16fault, batch, idx 
 		if wire, err := m.WireOps(ops); err == nil {
 			_, _ = writer.Transact(s.Name, wire)
 		}
+	}
+	if f.kind == "cut-after+window" {
+		// every time the client has received a monitor reply and not yet applied it
+		// (first set-up and every restart after a reconnect) another client commits
+		// a transaction on the monitored tables: its notification is handled inside
+		// the window
+		var wn int64
+		installClientHook()
+		c16WinMu.Lock()
+		c16Window = func() {
+			n := atomic.AddInt64(&wn, 1)
+			var ops []ovsdb.Operation
+			for _, tn := range []string{"T0", "T1", "T2"} {
+				ops = append(ops, ovsdb.Operation{Op: "insert", Table: tn, Row: ovsdb.Row{"name": fmt.Sprintf("win-%s-%d", tn, n), "n": int(n)}})
+			}
+			var reply []ovsdb.OperationResult
+			_ = writer.Call("transact", ovsdb.NewTransactArgs(s.Name, ops...), &reply, 5*time.Second)
+		}
+		c16WinMu.Unlock()
+		defer func() {
+			c16WinMu.Lock()
+			c16Window = nil
+			c16WinMu.Unlock()
+			res.windows = int(atomic.LoadInt64(&wn))
+		}()
 	}
 	names := 0
 	rowOps := func(table string, n int) []ref.Op {
@@ -340,6 +374,9 @@ func c16Child(r *ev.Run, batch int) {
 		if si == 0 {
 			shape.nMon = 2
 		}
+		if si == 1 {
+			shape.nMon = 1 // the single-monitor reconnect takes its own branch in the client
+		}
 		for i := 0; i < shape.nMon; i++ {
 			shape.methods = append(shape.methods, methods[p.Intn(3)])
 		}
@@ -370,6 +407,12 @@ func c16Child(r *ev.Run, batch int) {
 				faults = append(faults, c16fault{kind: "cut-inside", dir: d, k: k})
 			}
 		}
+		for k := 1; k <= base.c2s; k += 2 {
+			faults = append(faults, c16fault{kind: "cut-after+window", dir: proxy.C2S, k: k})
+		}
+		for k := 2; k <= base.s2c; k += 2 {
+			faults = append(faults, c16fault{kind: "cut-after+window", dir: proxy.S2C, k: k})
+		}
 		for k := 2; k <= base.s2c; k += 3 {
 			faults = append(faults, c16fault{kind: "double-cut", dir: proxy.S2C, k: k, second: 1 + k%5})
 			faults = append(faults, c16fault{kind: "refuse", dir: proxy.C2S, k: k})
@@ -387,6 +430,7 @@ func c16Child(r *ev.Run, batch int) {
 			r.Eval(1)
 			r.Distinct(shape.String() + "|" + f.String())
 			r.Count("sessions."+f.kind, 1)
+			r.Count("transactions-committed-inside-a-monitor-window", res.windows)
 			for _, fd := range res.findings {
 				n := len(res.log)
 				from := 0
